@@ -2,6 +2,7 @@ package main
 
 import (
 	"fmt"
+	"strconv"
 	"go/constant"
 	"go/types"
 	"math"
@@ -285,7 +286,139 @@ func (s sliceV) elems() []Value {
 	return (*s.a)[s.off : s.off+s.n]
 }
 
+// decAtom is a pseudo-byte standing for the whole decimal rendering of a
+// 64-bit term (strconv.FormatInt/FormatUint of a symbolic integer). It is only
+// meaningful to comparisons between equally shaped strings and to the parsing
+// functions; every other string operation rejects it.
+func decAtom(t *Term, signed bool) *Term {
+	p := 0
+	if signed {
+		p = 1
+	}
+	return &Term{op: "dec", w: 8, args: []*Term{t}, p1: p}
+}
+
+func hasAtom(s strV) bool {
+	for _, b := range s {
+		if b.op == "dec" {
+			return true
+		}
+	}
+	return false
+}
+
+func noAtom(s strV, what string) {
+	if hasAtom(s) {
+		unsupported("formatted symbolic integer used in %s", what)
+	}
+}
+
+func strEqAtoms(x, y strV) *Term {
+	// single atom against concrete digits
+	num := func(a *Term, s strV) *Term {
+		str, ok := concrete(s)
+		if !ok {
+			unsupported("comparison of a formatted symbolic integer with a symbolic string")
+		}
+		if a.p1 == 1 {
+			n, err := strconv.ParseInt(str, 10, 64)
+			if err != nil || strconv.FormatInt(n, 10) != str {
+				return tFalse
+			}
+			return mkEq(a.args[0], bv(64, uint64(n)))
+		}
+		n, err := strconv.ParseUint(str, 10, 64)
+		if err != nil || strconv.FormatUint(n, 10) != str {
+			return tFalse
+		}
+		return mkEq(a.args[0], bv(64, n))
+	}
+	if len(x) == 1 && x[0].op == "dec" && !hasAtom(y) {
+		return num(x[0], y)
+	}
+	if len(y) == 1 && y[0].op == "dec" && !hasAtom(x) {
+		return num(y[0], x)
+	}
+	return matchAtoms(x, y)
+}
+
+func isDigitConst(b *Term) bool {
+	return b.op != "dec" && b.isConst && ((b.c >= '0' && b.c <= '9') || b.c == '-')
+}
+
+// boundary: the element after a number must be a concrete non-digit (or the end)
+func numberEnds(s strV) bool {
+	if len(s) == 0 {
+		return true
+	}
+	b := s[0]
+	return b.op != "dec" && b.isConst && !isDigitConst(b)
+}
+
+// matchAtoms compares two strings made of bytes and formatted symbolic
+// integers. A formatted integer is delimited by concrete non-digit bytes.
+func matchAtoms(x, y strV) *Term {
+	if len(x) == 0 || len(y) == 0 {
+		return bl(len(x) == 0 && len(y) == 0)
+	}
+	xa, ya := x[0].op == "dec", y[0].op == "dec"
+	switch {
+	case !xa && !ya:
+		c := mkEq(x[0], y[0])
+		if c.isFalse() {
+			return c
+		}
+		return mk("and", 0, c, matchAtoms(x[1:], y[1:]))
+	case xa && ya:
+		if !numberEnds(x[1:]) || !numberEnds(y[1:]) {
+			unsupported("formatted symbolic integers not delimited by concrete non-digit text")
+		}
+		if x[0].p1 != y[0].p1 {
+			unsupported("comparison of signed and unsigned formatted symbolic integers")
+		}
+		return mk("and", 0, mkEq(x[0].args[0], y[0].args[0]), matchAtoms(x[1:], y[1:]))
+	case ya:
+		return matchAtoms(y, x)
+	}
+	// x[0] is an atom, y starts with bytes: take y's concrete number run
+	if !numberEnds(x[1:]) {
+		unsupported("formatted symbolic integer not delimited by concrete non-digit text")
+	}
+	n := 0
+	for n < len(y) && isDigitConst(y[n]) {
+		n++
+	}
+	if n < len(y) && !(y[n].op != "dec" && y[n].isConst) {
+		unsupported("formatted symbolic integer compared with symbolic text")
+	}
+	if n == 0 {
+		if y[0].op != "dec" && !y[0].isConst {
+			unsupported("formatted symbolic integer compared with symbolic text")
+		}
+		return tFalse
+	}
+	digits, _ := concrete(y[:n])
+	var eq *Term
+	if x[0].p1 == 1 {
+		v, err := strconv.ParseInt(digits, 10, 64)
+		if err != nil || strconv.FormatInt(v, 10) != digits {
+			return tFalse
+		}
+		eq = mkEq(x[0].args[0], bv(64, uint64(v)))
+	} else {
+		v, err := strconv.ParseUint(digits, 10, 64)
+		if err != nil || strconv.FormatUint(v, 10) != digits {
+			return tFalse
+		}
+		eq = mkEq(x[0].args[0], bv(64, v))
+	}
+	return mk("and", 0, eq, matchAtoms(x[1:], y[n:]))
+}
+
 func strEq(x, y strV) *Term {
+	if hasAtom(x) || hasAtom(y) {
+		return strEqAtoms(x, y)
+	}
 	if len(x) != len(y) {
 		return tFalse
 	}
